@@ -196,7 +196,7 @@ def applyOne (p : Program) : List String → Option (Option Program)
     | "renameOutput" => some (some (renameOutput callable param new p))
     | "removeInput" => some (some (removeInput callable param p))
     | "removeUnused" => some (some (removeUnused (calls == "1") tops p))
-    | "removeOutput" => some none
+    | "removeOutput" => some (some (removeOutput callable param p))
     | _ => none
   | _ => none
 
@@ -264,6 +264,9 @@ def handle (op : String) (args : List String) : Option String :=
     let dec := !st.2 || decide (measure st.1 < measure p)
     let fix := !(removeStep p (calls == "1") tops (removeLoop p (calls == "1") tops (measure p + 1) p)).2
     some (s!"wf={wf} fresh={fresh} rt={rt} cg={cg} dec={dec} fix={fix} found={(p.find? x).isSome}")
+  | "thmout", [prog, x, o] => do
+    let p ← pProgram (prog.splitOn " ") []
+    some (s!"unref={outputUnreferenced x o p} same={decide (removeOutput x o p = removeOutputPlain x o p)}")
   | "roundtrip", [prog] => do
     let p ← pProgram (prog.splitOn " ") []
     some (showProgram p)
